@@ -387,7 +387,8 @@ def rule_whole(F, R):
                 continue
             items = node.items if node.kind == "cat" else [node]
             anchored = len(items) >= 2 and items[0].kind == "bol" and items[-1].kind == "eol" and \
-                not any(it.kind in ("bol", "eol") for it in items[1:-1])
+                not any(it.kind in ("bol", "eol") for it in items[1:-1]) and \
+                not items[0].flags.get("m") and not items[-1].flags.get("m")     # under (?m) they are line anchors
             R.check(anchored, "C01.anchor", name, "pattern is ^...$ (whole-path match, capture 0 = whole path)", where,
                     fail_msg="the compiled pattern %r is not anchored at both ends: a partial match would be accepted" % text)
             for flags, cls in rx.classes(p):
@@ -782,7 +783,8 @@ def rule_whole_anchor_only(F, R):
                 continue
             node, p = rx.parse(text)
             items = node.items if node.kind == "cat" else [node]
-            anchored = len(items) >= 2 and items[0].kind == "bol" and items[-1].kind == "eol"
+            anchored = len(items) >= 2 and items[0].kind == "bol" and items[-1].kind == "eol" and \
+                not items[0].flags.get("m") and not items[-1].flags.get("m")
             R.check(anchored, "C04.whole", "anchor/" + name, "capture 0 is the whole path (pattern is ^...$)", where,
                     fail_msg="pattern %r is not anchored at both ends" % text)
 
